@@ -23,7 +23,6 @@ replaced stale entry's socket had shutdown() called (or was closed); a removed e
 closed.
 """
 import errno
-import socket
 import ssl
 
 from engine import Ob
